@@ -443,7 +443,7 @@ def rule_moveonce(ctx, rep):
                     if c3.startswith("<alloc::boxed::Box<T") and c3.endswith("::from_raw") and t3["args"]:
                         r3 = t3.get("resolved")
                         targs = [F.ts(a["t"]) for a in (r3["args"] if isinstance(r3, dict) else []) if "t" in a]
-                        if targs and "ManuallyDrop" in targs[0] and from_boxed(nobb(symx.expr(F, B, t3["args"][0]))):
+                        if targs and ("ManuallyDrop" in targs[0] or "MaybeUninit" in targs[0]) and from_boxed(nobb(symx.expr(F, B, t3["args"][0]))):
                             frees.append(bi)
                 if not from_boxed(src):
                     ok, why = False, "the bulk copy reads through a pointer taken from the Vec (%s) *before* `into_boxed_slice` gave the buffer away - that call may shrink and move the buffer, so the elements would be copied out of freed memory; the source must be the boxed slice's own pointer" % symx.show(src)[:80]
@@ -492,7 +492,7 @@ def rule_moveonce(ctx, rep):
             for bi, t in B.calls():
                 if atomics.callee_of(t) in ("<alloc::boxed::Box<T, alloc::alloc::Global>>::from_raw", "<alloc::boxed::Box<T, A>>::from_raw"):
                     ga = [a["t"] for a in t["resolved"]["args"] if "t" in a]
-                    if ga and F.ty(ga[0])["k"] == "adt" and F.ty(ga[0])["path"] == "core::mem::manually_drop::ManuallyDrop":
+                    if ga and F.ty(ga[0])["k"] == "adt" and F.ty(ga[0])["path"] in ("core::mem::manually_drop::ManuallyDrop", "core::mem::maybe_uninit::MaybeUninit"):  # (either wrapper has T's layout and no drop glue)
                         src = nobb(symx.expr(F, B, t["args"][0]))
                         raws = []
                         find_calls(src, "into_raw", raws)
